@@ -6,8 +6,22 @@
 import Wsp.Model.Whisper
 namespace Wsp
 
+/-- ⟦Create⟧ with an open flag that allows an existing file (no O_EXCL, no O_TRUNC): the file
+    is cut or extended to the size of the new layout at once — what it held inside that size
+    stays on the disk — and the header goes to the buffer only. -/
+def recreateHandle (o : FOps) (agg : Nat) (xff : UInt32) (lay : List (Int × Nat)) (old : Bytes) : R (Bytes × Handle) :=
+  match newHeader o agg xff lay with
+  | .error e => .error e
+  | .ok h =>
+    let size := h.expectedFileSize
+    let disk : Bytes := old.take size ++ List.replicate (size - old.length) 0
+    match writeAt disk 0 (encHeader h) with
+    | .error e => .error e
+    | .ok view => .ok (disk, ⟨h, view⟩)
+
 inductive LibOp
   | create (lay : List (Int × Nat)) (agg : Nat) (xff : UInt32)
+  | createOver (lay : List (Int × Nat)) (agg : Nat) (xff : UInt32)   -- Create with O_RDWR|O_CREATE
   | open_
   | sync
   | drop                                   -- the handle is abandoned without Sync
@@ -22,14 +36,24 @@ inductive OpObs
   | ok | noHandle | fault (f : Fault) | errExists | errNotExist
   deriving Repr, DecidableEq
 
+/-- creating a file that is not there -/
+def World.createFresh (o : FOps) (w : World) (lay : List (Int × Nat)) (agg : Nat) (xff : UInt32) : World × OpObs :=
+  match createHandle o agg xff lay with
+  | .ok (disk, h) => (⟨some disk, some h⟩, .ok)
+  | .error e => (w, .fault e)
+
 def World.step (o : FOps) (w : World) : LibOp → World × OpObs
   | .create lay agg xff =>
     match w.disk with
     | some _ => ({ w with h := none }, .errExists)
-    | none =>
-      match createHandle o agg xff lay with
+    | none => w.createFresh o lay agg xff
+  | .createOver lay agg xff =>
+    match w.disk with
+    | none => w.createFresh o lay agg xff
+    | some d =>
+      match recreateHandle o agg xff lay d with
       | .ok (disk, h) => (⟨some disk, some h⟩, .ok)
-      | .error e => (w, .fault e)
+      | .error e => ({ w with h := none }, .fault e)
   | .open_ =>
     match w.disk with
     | none => ({ w with h := none }, .errNotExist)
